@@ -22,7 +22,9 @@ def main():
         from pyvc import extract
         extract.REPO = d
         from pyvc import driver
-        eng, verdicts, _ = driver.run(fns or None, verbose=False)
+        mods = os.environ.get("VERIF_MUT_MODULES")
+        from pyvc import bigstack
+        eng, verdicts, _ = bigstack.run(driver.run, fns or None, mods.split(",") if mods else None, 10000, False)
         bad = sorted({(v.status, v.name) for v in verdicts if v.status != "proved"})
         for st, n in bad:
             print(f"  {st:9s} {n}")
